@@ -405,6 +405,8 @@ func vpHistory(t *testing.T, penc, eenc *json.Encoder, hist int, rng *rand.Rand,
 				return txn, false
 			}
 			outH = hours - req + 1
+		case "fee-all":
+			outH = 0
 		case "zero-fee":
 			outH = hours
 		case "hours-over":
@@ -569,6 +571,9 @@ func vpHistory(t *testing.T, penc, eenc *json.Encoder, hist int, rng *rand.Rand,
 		lastTxns = nil
 		for i := 0; i < nt; i++ {
 			kind := kindsList[rng.Intn(len(kindsList))]
+			if i == 0 && round%2 == 1 && len(free) >= 2 {
+				kind = "chain" // every second round starts with a conflict chain
+			}
 			burn := burnChoices[rng.Intn(3)]
 			var batch []coin.Transaction
 			switch kind {
@@ -614,15 +619,34 @@ func vpHistory(t *testing.T, penc, eenc *json.Encoder, hist int, rng *rand.Rand,
 					continue
 				}
 				p := rng.Perm(len(free))
-				x, y := free[p[0]], free[p[1]]
-				mid := []coin.UxOut{x, y}
-				if rng.Intn(2) == 0 {
-					mid = []coin.UxOut{y, x} // the input shared with the LATER transaction first
-				}
-				for _, in := range [][]coin.UxOut{{x}, mid, {y}} {
-					if txn, ok := mk(P, []string{"normal", "fee-exact"}[rng.Intn(2)], in, burn); ok {
-						kinds[txn.Hash().Hex()] = "chain"
-						batch = append(batch, txn)
+				// one chain with the middle transaction's inputs in each order (two chains when there are enough free outputs)
+				for c := 0; c+1 < len(p) && c < 4; c += 2 {
+					x, y := free[p[c]], free[p[c+1]]
+					mid := []coin.UxOut{x, y}
+					if c == 0 || rng.Intn(2) == 0 {
+						mid = []coin.UxOut{y, x} // the input shared with the LATER transaction first
+					}
+					// the first chain in a fixed fee order A > B > C (A burns all its hours and has the richer input, B half, C the
+					// minimum), so that the middle transaction is the one that loses and the last one must stay
+					hx, _ := x.CoinHours(P.head(t).Head.Time)
+					hy, _ := y.CoinHours(P.head(t).Head.Time)
+					if c == 0 && hx < hy {
+						x, y = y, x
+						if mid[0] == y {
+							mid = []coin.UxOut{x, y}
+						} else {
+							mid = []coin.UxOut{y, x}
+						}
+					}
+					for q, in := range [][]coin.UxOut{{x}, mid, {y}} {
+						kind := []string{"normal", "fee-exact"}[rng.Intn(2)]
+						if c == 0 {
+							kind = []string{"fee-all", "normal", "fee-exact"}[q]
+						}
+						if txn, ok := mk(P, kind, in, burn); ok {
+							kinds[txn.Hash().Hex()] = "chain"
+							batch = append(batch, txn)
+						}
 					}
 				}
 			default:
